@@ -21,7 +21,7 @@ CASES = {"quick": 2000, "thorough": 24000}
 FUZZ_RUNS = {"thorough": 20000}     # coverage-guided leg, 8 processes (vlib/fuzz.py)
 
 # -1 / -2 and 0 / 2**61 - 1 have equal hashes in CPython: distinct keys that a hash-only comparison would merge
-VA = [None, 0, 1, 2, 0, 1, 2, -1, -2, 2**61 - 1]
+VA = [None, 0, 1, 2, 0, 1, 2, -1, -2, 2**61 - 1, 2.0, 1.0, -0.0]       # 2 == 2.0: equal sort keys of different types
 VB = [None, "x", "y", "xy"]
 VC = [None, 1, "x", True]
 
@@ -53,6 +53,7 @@ def _fn():
         st.tuples(st.just("const"), st.sampled_from(VA + VB)),
         st.tuples(st.just("copy"), st.sampled_from(["a", "b", "c", "_id"])),
         st.tuples(st.just("inc"), st.just("_id")),
+        st.tuples(st.just("bump"), st.just("a")),
     ).map(list)
 
 
@@ -93,6 +94,10 @@ def _op(draw, counter):
             op["pairs"].append([k2, draw(st.sampled_from([["copy", op["pairs"][0][0]], ["copy", "_id"], ["const", 7]]))])
         if name == "modify_if":
             op["pred"] = draw(_pred())
+            if draw(st.integers(0, 3)) == 0:
+                # the predicate reads the very key the function moves on
+                op["pred"] = ["eq", "a", draw(st.sampled_from([0, 1, 2]))]
+                op["pairs"][0] = ["a", ["bump", "a"]]
     elif name == "fill":
         op["pairs"] = draw(st.sampled_from([None, [["c", 0]], [["d", None], ["e", "x"]], [["a", 9]]]))
     elif name == "append":
@@ -129,6 +134,12 @@ def _plan(draw, max_chain):
     items = [draw(_item(i)) for i in range(n)]
     counter = [0]
     chain = [draw(_op(counter)) for _ in range(draw(st.integers(1, max_chain)))]
+    if n and draw(st.integers(0, 7)) == 0:
+        # the same dicts at several positions (list * k is shallow), then an edit whose function moves the very
+        # key its predicate reads: a plain loop visits the positions one after the other
+        ints = [x["a"] for x in items if type(x["a"]) is int] or [0]
+        chain = [{"op": "mul", "k": draw(st.sampled_from([2, 3])), "r": draw(st.booleans())}] + chain[:max_chain - 2] + [
+            {"op": "modify_if", "pred": ["eq", "a", draw(st.sampled_from(ints))], "pairs": [["a", ["bump", "a"]]]}]
     plan = {"items": items, "chain": chain}
     if draw(st.integers(0, 3)) == 0:
         plan["peek_items"] = draw(st.sampled_from([1, 2, 3, 7]))      # dataiter.DEFAULT_PEEK_ITEMS: head()/tail() default
@@ -171,6 +182,9 @@ def mk_fn(f):
         return lambda it: f[1]
     if f[0] == "copy":
         return lambda it: it.get(f[1])
+    if f[0] == "bump":
+        # reads the key it is usually assigned to: applying it twice is not applying it once
+        return lambda it: (it.get(f[1]) if type(it.get(f[1])) is int else 0) + 1
     return lambda it: it["_id"] + 1000
 
 
@@ -359,7 +373,7 @@ def applicable(ref, op):
             if not all(k in x for x in ref):
                 return False
             types = {type(x[k]) for x in ref if x[k] is not None}
-            if len(types) > 1 or (types and types.pop() not in (int, str)):
+            if not (types <= {int, float} or types <= {str}):
                 return False
         return True
     if name == "unique":
@@ -426,9 +440,9 @@ def check(plan, ctx):
     compare(-1, {"op": "init"}, real, ref)
     aliased = False
     for step, op in enumerate(plan["chain"]):
-        if aliased and op["op"] in ("modify", "modify_if") and any(f[0] == "inc" for _, f in op["pairs"]):
-            ctx.excl("non-idempotent edit of items aliased by *")
-            continue
+        if aliased and op["op"] in ("modify", "modify_if") and any(f[0] == "bump" for _, f in op["pairs"]):
+            # the same dict at several positions: items are visited one after the other, as in a plain loop
+            ctx.cls("non_idempotent_edit_of_items_aliased_by_mul")
         if not applicable(ref, op):
             ctx.excl("step outside the documented domain (absent key / incomparable sort values)")
             continue
